@@ -1,12 +1,13 @@
 import MJ.Model.Eval
 import MJ.Model.Compile
 import MJ.Model.Vm
+import MJ.Model.VmM
 import MJ.Proofs.StmtSim
 /-!
 Line driver for C03 (reference interpreter).
 
 input :  `<id>\t<ctx s-expr>\t<program s-expr>`
-output:  `<id>\t<exec result>\t<model code>\t<model VM result on the model code>` with result `ok:<hex of utf-8 output>` | `err:<class>` |
+output:  `<id>\t<exec result>\t<model code>\t<model VM result on the model code>\t<frag3|->\t<extended model VM result>` with result `ok:<hex of utf-8 output>` | `err:<class>` |
          `bad-case:<why>` and model code `(code …)` (same syntax as the harness dump of the real
          instruction stream) or `oof` when the program leaves the fragment of `MJ.Compile`
 
@@ -265,6 +266,9 @@ partial def valStr : Val → String
   | .list xs => "(l" ++ String.join (xs.map fun x => " " ++ valStr x) ++ ")"
   | .map kvs => "(m" ++ String.join (kvs.map fun kv => s!" ({hexOf kv.1} {valStr kv.2})") ++ ")"
   | .macro .. => "(other macro)"
+  | .vmMacro .. => "(other macro)"
+  | .kwargs kvs => "(m" ++ String.join (kvs.map fun kv => s!" ({hexOf kv.1} {valStr kv.2})") ++ ")"
+  | .loopObj _ => "(other loop)"
 
 def cmpName : CmpOp → String
   | .eq => "Eq" | .ne => "Ne" | .lt => "Lt" | .le => "Lte" | .gt => "Gt" | .ge => "Gte"
@@ -305,6 +309,14 @@ def instrStr : Instr → String
   | .dupTop => "(DupTop)"
   | .discardTop => "(DiscardTop)"
   | .swap => "(Swap)"
+  | .buildKwargs n => s!"(BuildKwargs {n})"
+  | .callFunction name argc => s!"(CallFunction {name} {argc})"
+  | .callObject argc => s!"(CallObject {argc})"
+  | .isUndefined => "(IsUndefined)"
+  | .return_ => "(Return)"
+  | .enclose x => s!"(Enclose {x})"
+  | .getClosure => "(GetClosure)"
+  | .buildMacro name offset flags => s!"(BuildMacro {name} {offset} {flags})"
 
 def codeStr (prog : List Stmt) : String :=
   match MJ.Compile.compileTemplate prog with
@@ -325,10 +337,17 @@ def handle (line : String) : String :=
         | none => "-"
         | some code => match MJ.Vm.renderCode 200000 ctx code with
           | .ok out => s!"ok:{hexOf out}"
+          | .error .outOfFragment => "-"      -- macro instructions: see the extended VM below
+          | .error e => s!"err:{errName e}"
+      -- the extended model VM (macros, calls, live loop object) on the model code
+      let vmM := match MJ.Compile.compileTemplate prog with
+        | none => "-"
+        | some code => match MJ.VmM.renderCodeM 4000 ctx code with
+          | .ok out => s!"ok:{hexOf out}"
           | .error e => s!"err:{errName e}"
       -- is the program in the fragment for which the refinement theorem is proved?
       let frag := if MJ.Compile.simpleBlock prog then "frag3" else "-"
-      s!"{id}\t{res}\t{codeStr prog}\t{vm}\t{frag}"
+      s!"{id}\t{res}\t{codeStr prog}\t{vm}\t{frag}\t{vmM}"
     | none, _ => s!"{id}\tbad-case:ctx"
     | _, none => s!"{id}\tbad-case:prog"
   | _ => "?\tbad-case:fields"
